@@ -191,7 +191,7 @@ def P(pid):
                                'committed indexes by L + 1. The algebra is not decided.')
     elif pid == 'C07':
         R = [
-            ('RF-G1 CSPRNG provenance', rf_rand.rule_randomness_provenance, 8),
+            ('RF-G1 CSPRNG provenance', rf_rand.rule_randomness_provenance, 7),
             ('RF-G2 one draw per element', rf_rand.rule_draw_in_loop, 2),
             ('RF-G1 buffers have their final length when the generator fills them', rf_rand.rule_filled_buffers, 2),
             ('RF-G2 role positions', rf_rand.rule_role_projection, 6),
@@ -553,7 +553,7 @@ def thorough_extra(pid):
             R.append(('RF-C hash binding @%s' % cfg, (lambda cfg: lambda c: rf_hash.rule_hash_binding(c, {k: v for k, v in rf_hash.BBS_TABLE.items() if cfg != 'prod-bbs' or not k.endswith('finalize_blind_sign')}, BBS_SCOPE, cfg=cfg))(cfg), 40))
             R.append(('RF-B plain interface constants @%s' % cfg, (lambda cfg: lambda c: rf_consts.rule_interface_constants(c, PLAIN_ENTRIES, cfg=cfg))(cfg), 15))
     if pid in ('C07', 'C03', 'C05'):
-        R.append(('RF-G1 provenance @prod-default', lambda c: rf_rand.rule_randomness_provenance(c, cfg='prod-default'), 8))
+        R.append(('RF-G1 provenance @prod-default', lambda c: rf_rand.rule_randomness_provenance(c, cfg='prod-default'), 7))
     if pid in ('C08',):
         R.append(('RF-F panic census @prod-default', lambda c: rf_panic.rule_panic_census(c, cfg='prod-default'), 90))
     if pid in ('C07', 'C10', 'C12', 'C11'):
